@@ -48,6 +48,10 @@ func fatal2(format string, a ...any) {
 	os.Exit(2)
 }
 
+// goraceBase: never de-duplicate reports (re-running the same race during
+// minimisation must count again), keep the worker's own exit status.
+const goraceBase = "GORACE=suppress_equal_stacks=0 suppress_equal_addresses=0 history_size=5 exitcode=0"
+
 var scratch string
 var keepScratch bool
 
@@ -104,7 +108,10 @@ type runOut struct {
 
 func runWorker(bin string, gomaxprocs int, raceLog string, args ...string) runOut {
 	cmd := exec.Command(bin, args...)
-	cmd.Env = append(os.Environ(), "GORACE=suppress_equal_stacks=0 suppress_equal_addresses=0 history_size=5"+raceLog)
+	if raceLog == "" {
+		raceLog = filepath.Join(scratch, "racelog-worker")
+	}
+	cmd.Env = append(os.Environ(), goraceBase+" log_path="+raceLog)
 	if gomaxprocs > 0 {
 		cmd.Env = append(cmd.Env, "GOMAXPROCS="+strconv.Itoa(gomaxprocs))
 	}
@@ -273,4 +280,21 @@ func sortedKeys(m map[string]int) []string {
 	}
 	sort.Strings(ks)
 	return ks
+}
+
+func init() {
+	if len(os.Args) >= 3 && os.Args[1] == "prepare" {
+		info, err := prepare(repoDir, verifDir, os.Args[2], false)
+		if err != nil {
+			fmt.Fprintln(os.Stderr, "HARNESS:", err)
+			os.Exit(2)
+		}
+		for _, race := range []bool{false, true} {
+			if _, err := buildSim(info, race); err != nil {
+				fmt.Fprintln(os.Stderr, "HARNESS:", err)
+				os.Exit(2)
+			}
+		}
+		os.Exit(0)
+	}
 }
